@@ -51,6 +51,7 @@ import Kopf.Lemmas.C20_InvT
 import Kopf.Lemmas.C20_Flag
 import Kopf.Lemmas.C20_InvK
 import Kopf.Lemmas.C20_Order
+import Kopf.Lemmas.C20_Monitor
 namespace Kopf.C20
 
 /-! ### Startup first -/
@@ -1287,5 +1288,36 @@ example : ∃ s, runC cfgHead init (coreFail ++
      .rtHungWait, .delay 320, .rtStopHung, .waiterEnd, .rtExit .raised]) = some s
     ∧ s.rt = .exited ∧ s.result = some .raised ∧ s.cleanupBegun = true ∧ s.t0 = some 0 ∧ s.exitAt = some 352 :=
   ⟨_, rfl, by decide, by decide, by decide, by decide, by decide⟩
+
+/-! ## The done-callbacks of the ensemble tasks: every generation under a key is monitored (seeded change C20g)
+
+`stream_failure_stops_all` is about the edge `subEnd i failed → orchestrator` that the LTS has for EVERY ensemble task `sub i`
+(`cfg.fixed`). That the code HAS that edge for every task — also for the task spawned under a key that was served before, dropped
+(`del_keys`: namespace / CRD deleted) or emptied (its task exited with HTTP 404) and is served again — is the business of the
+orchestrator's bookkeeping `monitored_tasks`, modelled in `Kopf.Model.C20_Monitor` (`byTask := true` = the tree, tie T
+`monitors_by_task_eq`; whole-operator histories `regen_fail` exercise it on the real code). -/
+
+/-- THE CLAIM (current tree, bookkeeping by task object): after ANY sequence of adjustments of the ensemble — any keys dropped, any
+    keys served, in any order, any number of times — every task object of the ensemble carries the orchestrator's done-callback:
+    the failure of the task of ANY generation under ANY key escalates. No bound on the number of adjustments, keys, generations. -/
+theorem every_generation_monitored (ops : List (List Monitor.Key × List Monitor.Key)) :
+    (∀ p, p ∈ (Monitor.run true Monitor.init ops).tasks → p.2 ∈ (Monitor.run true Monitor.init ops).cbs)
+    ∧ ∀ k, Monitor.escalates (Monitor.run true Monitor.init ops) k = true := by
+  have h := Monitor.run_inv ops Monitor.inv_init
+  exact ⟨fun p hp => h.2 _ (by rw [h.1]; exact List.mem_map.mpr ⟨p, hp, rfl⟩), fun k => Monitor.inv_escalates h k⟩
+
+/-- non-vacuity: key 0 served, dropped, served again (a second task object, 1), and key 1 restarted within ONE adjustment (its task
+    had exited: dropped and spawned anew, task object 3): the live tasks are those of the second generation, and they are monitored -/
+example : (Monitor.run true Monitor.init [([], [0, 1]), ([0], [1]), ([1], [0, 1])]).tasks = [(0, 2), (1, 3)]
+    ∧ (Monitor.run true Monitor.init [([], [0, 1]), ([0], [1]), ([1], [0, 1])]).cbs = [0, 1, 2, 3] := by decide
+
+/-- WITNESS (the variant that keeps KEYS and never forgets them — the seeded change C20g — is NOT a model in which the claim holds):
+    a key served, dropped and served again — and a key whose exited task is replaced within ONE adjustment — end up with a live task
+    that does not carry the callback: its failure is only logged, nothing wakes the orchestrator, no root task ends. The first
+    generation is monitored all the same (why kopf's own tests and every history without a re-served key pass). -/
+theorem by_key_bookkeeping_misses_later_generations_witness :
+    Monitor.escalates (Monitor.run false Monitor.init [([], [0])]) 0 = true
+    ∧ Monitor.escalates (Monitor.run false Monitor.init [([], [0]), ([0], []), ([], [0])]) 0 = false
+    ∧ Monitor.escalates (Monitor.run false Monitor.init [([], [0]), ([0], [0])]) 0 = false := by decide
 
 end Kopf.C20
